@@ -268,6 +268,43 @@ def _str_safe(arg: ast.AST, handler_vars) -> bool:
     return False
 
 
+def mapping_names(fn: ast.AST) -> set:
+    """Names that hold a mapping throughout `fn`: parameters annotated Dict/Mapping/dict, locals bound only to dict
+    displays / dict(...) calls.  `.get(<constant key>)` on them cannot raise."""
+    out = set()
+    args = getattr(fn, "args", None)
+    if args is not None:
+        for a in args.posonlyargs + args.args + args.kwonlyargs:
+            if a.annotation is not None:
+                t = ast.unparse(a.annotation)
+                if t.split("[")[0].split(".")[-1] in ("Dict", "dict", "Mapping", "MutableMapping", "OrderedDict"):
+                    out.add(a.arg)
+    binds: dict = {}
+    for n in ast.walk(fn):
+        if isinstance(n, ast.Assign):
+            for t in n.targets:
+                if isinstance(t, ast.Name):
+                    binds.setdefault(t.id, []).append(n.value)
+        elif isinstance(n, ast.AnnAssign) and isinstance(n.target, ast.Name) and n.value is not None:
+            binds.setdefault(n.target.id, []).append(n.value)
+        elif isinstance(n, (ast.For, ast.AsyncFor, ast.With, ast.AsyncWith, ast.ExceptHandler, ast.comprehension)):
+            for x in ast.walk(getattr(n, "target", None) or ast.Pass()):
+                if isinstance(x, ast.Name):
+                    binds.setdefault(x.id, []).append(None)
+    for k, vs in binds.items():
+        if vs and all(v is not None and (isinstance(v, ast.Dict) or (isinstance(v, ast.Call) and isinstance(v.func, ast.Name) and v.func.id == "dict")) for v in vs):
+            out.add(k)
+        elif k in out:
+            out.discard(k)  # a mapping parameter that is rebound to something else
+    return out
+
+
+def is_mapping_get(call: ast.Call, names: set) -> bool:
+    f = call.func
+    return (isinstance(f, ast.Attribute) and f.attr == "get" and isinstance(f.value, ast.Name) and f.value.id in names and 1 <= len(call.args) <= 2 and not call.keywords
+            and isinstance(call.args[0], ast.Constant) and all(isinstance(a, (ast.Constant, ast.Name)) for a in call.args[1:]))
+
+
 CLOCK_FUNCS = {"time.monotonic", "time.time", "time.perf_counter", "time.monotonic_ns", "time.time_ns", "time.perf_counter_ns", "anyio.current_time", "monotonic", "perf_counter"}
 
 
